@@ -9,11 +9,7 @@ from .exceptions import KeyNotFoundError
 from .types import Evaluatable, Options, Value
 
 TEMPLATE_PARAM = re.compile(r"^:[a-zA-Z_][a-zA-Z0-9_]*:$")
-
-
-def _literal(value: Any) -> str:
-    """The string form of a parameter value with its braces escaped, so that it is inserted as text."""
-    return str(value).replace("{", "\\{").replace("}", "\\}")
+_MARKER = re.compile("\x00([0-9]+)\x01")
 
 
 class Template(Evaluatable[str]):
@@ -85,15 +81,20 @@ class Template(Evaluatable[str]):
 
     def evaluate(self, options: Options) -> str:
         """Evaluates the template using the options dictionary."""
-        params = {
-            f":{key}:": _literal(val.evaluate(options))
-            for key, val in self.params.items()
+        # A parameter's string form is inserted as text, whatever it contains (braces,
+        # backslashes): it travels through the substitution of the option references
+        # as an opaque marker and is put in place afterwards.
+        values = [str(val.evaluate(options)) for val in self.params.values()]
+        markers = {
+            f":{key}:": f"\x00{index}\x01" for index, key in enumerate(self.params)
         }
 
         try:
-            return str(resolve(self.template, mix(options, params)))  # type: ignore
+            text = str(resolve(self.template, mix(options, markers)))  # type: ignore
         except KeyError as e:
             raise KeyNotFoundError((*e.args, "UNKNOWN")[0], self) from e
+
+        return _MARKER.sub(lambda match: values[int(match.group(1))], text)
 
     def validate(self, options: Options) -> None:
         """Validates that the template can be evaluated using the options."""
